@@ -43,7 +43,7 @@ theorem c04_t_DocPos_Unpack (pos : Nat) :
   · omega
 
 /-- the summing loop of `calcChunkSize`: it ends in the code after the loop with `batchSize` = the sum -/
-theorem calc_loop (docs : List (List Int)) (prev mf : Int) (tl : List (List Int)) (acc : Nat)
+private theorem calc_loop (docs : List (List Int)) (prev mf : Int) (tl : List (List Int)) (acc : Nat)
     (h : acc + (tl.map List.length).sum < 9223372036854775808) :
     T.docsStream_calcChunkSize_loop0 docs prev mf tl acc
       = T.docsStream_calcChunkSize_loop0 docs prev mf [] ((acc + (tl.map List.length).sum : Nat) : Int) := by
@@ -81,7 +81,7 @@ theorem c04_t_calcChunkSize (docs : List (List Int)) (prev maxFetch : Nat)
     have d1 : Int.tdiv (S : Int) (n : Int) = ((S / n : Nat) : Int) := tdiv_natCast S n
     have hq : S / n ≤ S := Nat.div_le_self _ _
     have w1 : wrapI64 ((S / n : Nat) : Int) = ((S / n : Nat) : Int) := wrapI64_natCast (by omega)
-    have m1 : max (1 : Int) ((S / n : Nat) : Int) = ((max 1 (S / n) : Nat) : Int) := by omega
+    have m1 : max (1 : Int) ((S / n : Nat) : Int) = ((max 1 (S / n) : Nat) : Int) := max_one_cast _
     have g2 : ¬ ¬ (((max 1 (S / n) : Nat) : Int) ≠ 0) := by omega
     have d2 : Int.tdiv (maxFetch : Int) ((max 1 (S / n) : Nat) : Int) = ((maxFetch / max 1 (S / n) : Nat) : Int) :=
       tdiv_natCast _ _
@@ -89,7 +89,7 @@ theorem c04_t_calcChunkSize (docs : List (List Int)) (prev maxFetch : Nat)
     have w2 : wrapI64 ((maxFetch / max 1 (S / n) : Nat) : Int) = ((maxFetch / max 1 (S / n) : Nat) : Int) :=
       wrapI64_natCast (by omega)
     simp only [if_neg h0, if_neg h0', hlen, if_neg g1, d1, w1, m1, if_neg g2, d2, w2, Option.some.injEq]
-    omega
+    exact max_one_cast _
 
 /-- non-vacuity: the historical witnesses of the old sizing are inside the domain and size to at least one -/
 example : T.docsStream_calcChunkSize [[1, 2], [], []] 1000 4194304 = some 4194304 := by rfl
